@@ -50,6 +50,7 @@ RULES: Dict[str, Callable] = {
     "R-COLPERM": _cached("R-COLPERM", generic.run_colperm),
     "R-DEFAULTS": _cached("R-DEFAULTS", generic.run_defaults),
     "R-DTYPEKW": _cached("R-DTYPEKW", generic.run_dtypekw),
+    "R-KEYCLASS": _cached("R-KEYCLASS", generic.run_keyclass),
     "R-REGISTRAR": _cached("R-REGISTRAR", anchored.run_registrar),
     "R-OUTER": _cached("R-OUTER", anchored.run_outer),
     "R-NONE": _cached("R-NONE", anchored.run_none),
@@ -196,6 +197,7 @@ PLAN: Dict[str, dict] = {
             S("R-COLPERM", "re-ordered names and their exponent columns are permuted together"),
             G("R-TERMS", "the term accessors range over every key; todict keeps every term and the coefficient arrays themselves"),
             G("R-OPT-LAYERS", "the retain flags are resolved from the options before they decide what is dropped", only=msg("O12")),
+            S("R-KEYCLASS", "no character-class predicate on storage keys / field names (keys are arbitrary code points)"),
         ],
         "explanation": "Construction goes through validated constructors: every normal return of postprocess_attributes passed the "
                        "2-d / length / name-count / duplicate-name / duplicate-exponent checks; encode/decode of storage keys use "
@@ -215,6 +217,7 @@ PLAN: Dict[str, dict] = {
             S("R-BISECT", "no bisection on a sequence that was sorted with a key function (name / exponent look-ups are by equality)"),
             S("R-COLPERM", "re-ordered names and their exponent columns are permuted together"),
             G("R-TERMS", "alignment reads every term of its arguments (coefficients / exponents range over all keys)", only=in_funcs("coefficients", "exponents")),
+            S("R-KEYCLASS", "no character-class predicate on storage keys / field names (keys are arbitrary code points)"),
         ],
         "explanation": "Each align_* function returns tuple(list of per-argument images) in argument order where slot i is only "
                        "replaced by a value computed from argument i; the common shape / names / exponents are computed over all "
@@ -417,6 +420,7 @@ PLAN: Dict[str, dict] = {
             S("R-MEMORDER", "flattening / reshaping keeps numpy's logical element order (no literal memory-dependent order)"),
             S("R-DEFAULTS", "shared value/shape parameters have numpy's defaults (a call without them does what numpy does)"),
             G("R-OPT-LAYERS", "__reduce__ passes one retain flag and relies on the other being resolved from the options (never used while still None)", only=msg("O12")),
+            S("R-KEYCLASS", "no character-class predicate on storage keys / field names (keys are arbitrary code points)"),
         ],
         "explanation": "__reduce__ returns polynomial_from_attributes with exponents/coefficients/names/dtype/allocation bound to the "
                        "right parameters; __array_finalize__ copies exactly the attribute set __new__ assigns; HEADER_REGEX is built "
@@ -525,6 +529,7 @@ PLAN: Dict[str, dict] = {
             G("R-ALIAS", "the constructor does not shift a caller's exponent array in place", only=lambda f: f.function.endswith("__new__") or "numpoly/construct/" in f.relpath),
             S("R-BISECT", "no bisection on a sequence that was sorted with a key function (name / exponent look-ups are by equality)"),
             S("R-DEFAULTS", "shared value/shape parameters have numpy's defaults (a call without them does what numpy does)"),
+            S("R-KEYCLASS", "no character-class predicate on storage keys / field names (keys are arbitrary code points)"),
         ],
         "explanation": "Keys are built as exponents + KEY_OFFSET and decoded as uint32 view - KEY_OFFSET at every site; the constant "
                        "exceeds ':' and every header delimiter; the text reader decodes strictly; the C product-key encoder's "
